@@ -5,6 +5,7 @@ package tkn20_test
 // C11 (schedules): one CP-ABE public key, policy and attribute key shared by several goroutines.
 
 import (
+	"fmt"
 	"os"
 	"testing"
 
@@ -14,11 +15,14 @@ import (
 )
 
 type c11AbeShared struct {
-	pk     *cpabe.PublicKey
-	policy *cpabe.Policy
-	key    *cpabe.AttributeKey
-	attrs  *cpabe.Attributes
-	ct     []byte
+	pk      *cpabe.PublicKey
+	policy  *cpabe.Policy
+	key     *cpabe.AttributeKey
+	attrs   *cpabe.Attributes
+	ct      []byte
+	sfx     string
+	policy2 *cpabe.Policy
+	key2    *cpabe.AttributeKey
 }
 
 func c11AbeScenarios(t testing.TB) []sched.Scenario {
@@ -43,6 +47,26 @@ func c11AbeScenarios(t testing.TB) []sched.Scenario {
 	if err != nil {
 		t.Fatal(err)
 	}
+	uniq := 0
+	freshLabels := func(sh *c11AbeShared) {
+		// a policy and attribute set over labels no earlier call in this process has used (a
+		// process-wide cache keyed by label must not be warm from the sequential baseline)
+		uniq++
+		sfx := fmt.Sprintf("u%d", uniq)
+		pol := "(x" + sfx + ":1 and y" + sfx + ":1)"
+		sh.policy2 = new(cpabe.Policy)
+		if err := sh.policy2.FromString(pol); err != nil {
+			panic(err)
+		}
+		at := cpabe.Attributes{}
+		at.FromMap(map[string]string{"x" + sfx: "1", "y" + sfx: "1"})
+		k, err := msk.KeyGen(verifmc.NewDetReader("c11-abe-keygen2"), at)
+		if err != nil {
+			panic(err)
+		}
+		sh.key2 = &k
+	}
+	_ = freshLabels
 	fresh := func() interface{} {
 		s := &c11AbeShared{pk: new(cpabe.PublicKey), policy: new(cpabe.Policy), key: new(cpabe.AttributeKey), attrs: &cpabe.Attributes{}}
 		if err := s.pk.UnmarshalBinary(append([]byte{}, pkB...)); err != nil {
@@ -57,6 +81,38 @@ func c11AbeScenarios(t testing.TB) []sched.Scenario {
 		s.attrs.FromMap(map[string]string{"a": "1", "b": "1", "c": "2"})
 		s.ct = append([]byte{}, ct0...)
 		return s
+	}
+	freshCold := func() interface{} {
+		s := fresh().(*c11AbeShared)
+		uniq++
+		s.sfx = fmt.Sprintf("u%d", uniq)
+		return s
+	}
+	// encrypt under a policy over never-used labels, derive a key for them, decrypt: the result
+	// (the plaintext) does not depend on the label names
+	cold := func(label string) func(interface{}) interface{} {
+		return func(sh interface{}) interface{} {
+			s := sh.(*c11AbeShared)
+			var pol cpabe.Policy
+			if err := pol.FromString("(x" + s.sfx + ":1 and y" + s.sfx + ":1)"); err != nil {
+				return err
+			}
+			ct, err := s.pk.Encrypt(verifmc.NewDetReader("c11-abe-cold-"+label), pol, []byte("cold "+label))
+			if err != nil {
+				return err
+			}
+			at := cpabe.Attributes{}
+			at.FromMap(map[string]string{"x" + s.sfx: "1", "y" + s.sfx: "1"})
+			k, err := msk.KeyGen(verifmc.NewDetReader("c11-abe-coldkey-"+label), at)
+			if err != nil {
+				return err
+			}
+			pt, err := k.Decrypt(ct)
+			if err != nil {
+				return err
+			}
+			return pt
+		}
 	}
 	encDec := func(label string) func(interface{}) interface{} {
 		return func(sh interface{}) interface{} {
@@ -86,6 +142,7 @@ func c11AbeScenarios(t testing.TB) []sched.Scenario {
 	}
 	return []sched.Scenario{
 		{Cost: 400, Name: "tkn20/EncryptDecrypt(a)||EncryptDecrypt(b) one policy", Setup: fresh, Threads: []func(interface{}) interface{}{encDec("a"), encDec("b")}},
+		{Cost: 400, Name: "tkn20/first use of labels: EncKeyDec(a)||EncKeyDec(b)", Setup: freshCold, Threads: []func(interface{}) interface{}{cold("a"), cold("b")}},
 		{Cost: 400, Name: "tkn20/Decrypt||Decrypt||Satisfaction", Setup: fresh, Threads: []func(interface{}) interface{}{decrypt, decrypt, sat}},
 	}
 }
